@@ -4,6 +4,9 @@ controllers, a non-recyclable controller class) and OutputWriter request lists, 
 the recycle entry of every controller, the combined recycle flags (get_recycle_settings), for every time step whether
 the voltages solved by run_timeseries equal a fresh power flow of the tables, and what the writer does at the end
 (per-step reading, batch reading, KeyError, ValueError).
+Dependency table: deps(element, variable) of the model is re-derived mechanically from the code on every run (vf/c12_deps.py:
+single-cell perturbation + fresh _pd2ppc diff, pandas access trace, trace of the recycled power flow) and compared exactly with
+the Coq table over the whole domain (deps_check).
 Oracle: run_timeseries against a hand-written loop "write the step's values, fresh runpp, read the variable"."""
 import copy, math
 import numpy as np, pandas as pd
@@ -13,19 +16,43 @@ from pandapower.control.basic_controller import Controller
 from pandapower.timeseries import DFData, OutputWriter, run_timeseries
 import pandapower.timeseries.run_time_series as rts
 from vf import coqrun as cq
+from vf import c12_deps as dd
 
 RULE = ("meshed 110/20/10 kV net (2 parallel 2W transformers, 3W transformer, 3-line ring, loads/sgen/storage/gen/shunt/ward/"
         "impedance, random values); 1-3 controllers drawn from ConstControl over the (element, variable) domain (quick: seeded "
         "sample biased to every element class; thorough: every pair), DiscreteTapControl, a non-recyclable controller class, "
         "recycle=False given by the user; 3-4 time steps with pairwise different profile values; OutputWriter requests of 1-3 "
         "(table, variable) entries as constructor 2-tuples or log_variable() entries; non-trivial = recycling active (combined "
-        "flags not False) or batch reading active")
-ASSUMPTIONS = ["a time step whose Newton-Raphson iteration does not converge from the previous step's voltages, with or without recycling "
+        "flags not False) or batch reading active.  On EVERY run, before the generated cases: the dependency table deps(element, "
+        "variable) of the model is re-derived from the code on one fixed 22-bus test net with rows in all 13 element tables of the domain "
+        "(2 ext_grids, 6 two-winding transformers incl. ideal / symmetrical / characteristic-table tap changers, 3 three-winding "
+        "transformers, 21 lines in 3 rings, impedances, shunts, wards, 6 switches incl. an open line switch, fused buses and a bus-bus "
+        "switch with impedance): (a) perturbation - change one cell (x1.37, flip, +1, other bus, other tap side / changer type; create the "
+        "column when the table lacks it), rebuild with a fresh pd2ppc._pd2ppc, diff the ppc columns the Newton-Raphson power flow reads, "
+        "mapped to parts; (b) pandas access trace of one _pd2ppc attributed to the innermost ppc build function as a superset witness; "
+        "(c) the build functions that run in runpp(recycle=flags) for all 8 flag combinations; compared with deps / domain / "
+        "set_recycle_const / recycled_pf of the Coq model over the whole domain (1053 pairs) plus every column of the test net")
+ASSUMPTIONS = ["the mechanical derivation of the dependency table sees a dependency only as far as the fixed test net of vf/c12_deps.py exercises it "
+               "(every default column of the 13 element tables is perturbed; columns read by a build function without an observable effect are "
+               "listed in the histogram as deps_read_insensitive_*); for in_service / bus-reference / net.bus / net.switch columns the parts "
+               "next to PTopo are the knock-on effects on that net",
+               "a time step whose Newton-Raphson iteration does not converge from the previous step's voltages, with or without recycling "
                "(checked with a plain runpp(init='results') loop), is skipped: convergence of the solver is not part of the model",
                "the Newton-Raphson solver is an oracle: 'fresh' means the cached ppc parts equal a rebuild from the tables; equality of the "
                "solved voltages with a fresh runpp is observed (|dV| <= 1e-7), not proved",
                "numerical equality of the batch readers (read_batch_results.py) with the per-step result extraction is differential only"]
-TRUSTED = ["recording wrapper around pandapower.timeseries.run_time_series.get_recycle_settings (module attribute, harness process only)",
+TRUSTED = ["vf/c12_deps.py FUNC_PART / REBUILDER: the hand-written map ppc build function -> ppc parts it writes (17 functions; over-approximated for "
+           "_build_bus_ppc, _select_is_elements_numba and the switch / out-of-service stages, whose output every builder reads) - the only "
+           "hand-written piece of the dependency derivation; the column table itself is derived",
+           "vf/c12_deps.py full_net: one fixed test net must exercise every column (a column whose effect needs a configuration the net lacks "
+           "shows up as 'read but insensitive' in the histogram, the perturbation result decides); optional columns that create_* does not "
+           "add (temperature_degree_celsius, tap2_*, leakage ratios ...) are probed only if they are in the Coq domain",
+           "vf/c12_deps.py snapshot: the list of ppc columns the Newton-Raphson power flow reads (bus PD QD CID/CZD GS BS VM VA BUS_TYPE, gen "
+           "GEN_BUS PG QG QMIN QMAX VG GEN_STATUS, branch F_BUS T_BUS BR_STATUS BR_R BR_X BR_B BR_G TAP SHIFT *_ASYM), read off "
+           "makeYbus / makeSbus / bustypes / _get_pf_variables_from_ppci; BR_STATUS counts for the row's part and for the topology",
+           "temporary monkeypatches of pandas (DataFrame.__getitem__, .loc/.iloc/.at/.iat, .values, to_numpy, ...) and sys.setprofile, "
+           "active only during the traced _pd2ppc / runpp calls of the derivation, harness process only",
+           "recording wrapper around pandapower.timeseries.run_time_series.get_recycle_settings (module attribute, harness process only)",
            "output_writer_fct keyword of run_timeseries used to snapshot net._ppc voltages after every time step"]
 
 KF_LINE = "C12-line-recycled-under-trafo-flag"
@@ -520,9 +547,90 @@ def judge(ctx, case, impl, ref, divs, desc, mod):
              sample={"case": desc, "impl": {"recycle": impl["rec_col"], "combined": impl["comb"], "steps": [str(x) for x in status], "writer": str(wv)}})
 
 
+def deps_check(ctx):
+    """derive deps mechanically from the code and compare with the Coq table over the whole domain"""
+    net = dd.full_net()
+    pp.runpp(net, **dd.PF_KW)
+    reads = dd.access_trace(net)
+    d_el, d_col, d_len = ctx.coq_eval("c12dom", "C12.Model", ["run_domain"], timeout=600)[0]
+    m_dom = [(e, v) for e in d_el for v in d_col]
+    if d_len != len(m_dom) or len(set(m_dom)) != len(m_dom):
+        ctx.disagreement("the model's domain has %s pairs, its axes give %d" % (d_len, len(set(m_dom))), {"deps": "domain"})
+    dom_set = set(m_dom)
+    table, errors, tried = dd.perturbation_table(net, reads, m_dom)
+    pairs = list(m_dom) + [k for k in table if k not in dom_set]
+    term = "run_deps %s" % cq.lst(["(%s, %s)" % (cq.s(e), cq.s(v)) for e, v in pairs])
+    m_rows = ctx.coq_eval("c12deps", "C12.Model", [term], timeout=600)[0]
+    tables = set(dd.ELEMS)
+    if {e for e, _ in m_dom} != tables:
+        ctx.disagreement("element tables of the Coq domain %s differ from the tables of the test net %s" % (sorted({e for e, _ in m_dom}), sorted(tables)), {"deps": "tables"})
+    flag_objs = {}
+    for (e, v), (m_parts, m_flags) in zip(pairs, m_rows):
+        desc = {"deps_pair": [e, v]}
+        in_dom = (e, v) in dom_set
+        exists = v in net[e].columns
+        derived = table.get((e, v))
+        tparts = dd.trace_parts(reads.get((e, v), ()))
+        pf_read = bool(tparts)
+        ctx.corr_checked += 1
+        if tried.get((e, v), 0) == 0:
+            # every perturbed net was rejected by pd2ppc (or no alternative value): nothing derivable from the diff
+            ctx.count("deps_underivable_%s.%s" % (e, v))
+            if m_parts:
+                ctx.disagreement("deps %s.%s = %s in the model but no perturbation of the test net could be converted" % (e, v, m_parts), desc)
+            continue
+        if errors.get((e, v)):
+            ctx.count("deps_some_perturbation_rejected")
+        if sorted(m_parts) != sorted(derived):
+            ctx.disagreement("deps %s.%s: model %s, derived from the code by perturbation %s (access trace: %s)" % (
+                e, v, m_parts, derived, sorted(reads.get((e, v), ()))), desc)
+            continue
+        missing = [p for p in derived if p not in tparts]
+        if exists and missing:
+            ctx.disagreement("deps %s.%s: perturbation changes %s but the access trace saw no read in a build function of %s (reads: %s)" % (
+                e, v, derived, missing, sorted(reads.get((e, v), ()))), desc)
+            continue
+        if (derived or pf_read) and not in_dom:
+            ctx.disagreement("%s.%s is %s but is not in the model's domain" % (e, v, "computed into %s" % derived if derived else "read by %s" % sorted(reads[(e, v)])), desc)
+            continue
+        if pf_read and not derived:
+            ctx.count("deps_read_in_build_function_but_insensitive")     # the perturbation result decides
+            ctx.count("deps_read_insensitive_%s.%s" % (e, v))
+        ctx.count("deps_pair_%s" % ("+".join(derived) if derived else ("none_column_absent" if not exists else "none")))
+        # the recycle entry ConstControl really claims for the pair (columns of the test net only)
+        if exists and e in ("load", "sgen", "storage", "gen", "ext_grid", "trafo", "trafo3w", "line", "shunt", "ward", "impedance"):
+            ctx.corr_checked += 1
+            c = pc.ConstControl(net, e, v, net[e].index[0], data_source=None)
+            r = net.controller.at[c.index, "recycle"]
+            got = [bool(r["trafo"]), bool(r["gen"]), bool(r["bus_pq"])] if isinstance(r, dict) else None
+            if got != m_flags:
+                ctx.disagreement("ConstControl(%s, %s).set_recycle: impl %s model %s" % (e, v, got, m_flags), desc)
+    net.controller.drop(net.controller.index, inplace=True)
+    # which parts a recycled power flow rebuilds, for the 8 flag combinations
+    rb, builders = dd.rebuilt_by_flags(net)
+    combos = sorted(rb)
+    m_rb = ctx.coq_eval("c12rb", "C12.Model", ["run_rebuilt %s %s %s" % (cq.b(t), cq.b(g), cq.b(b_)) for t, g, b_ in combos], timeout=600)
+    for k, mp in zip(combos, m_rb):
+        ctx.corr_checked += 1
+        got = sorted(p for p, ok in rb[k]["parts"].items() if ok)
+        if not rb[k]["recycled"]:
+            ctx.disagreement("runpp(recycle=%s) on stored internals did not take the recycled power flow" % (k,), {"deps_flags": list(k)})
+        elif got != sorted(mp):
+            ctx.disagreement("recycled power flow under flags (trafo, gen, bus_pq)=%s rebuilds %s (functions %s), the model says %s" % (
+                k, got, rb[k]["called"], sorted(mp)), {"deps_flags": list(k)})
+    missing_builders = [p for p in dd.BASE_PARTS + ["PYbus", "PSbus"] if p not in builders]
+    if missing_builders:
+        ctx.disagreement("no build function of %s ran in the full power flow of the test net" % missing_builders, {"deps": "builders"})
+    ctx.extra["deps_pairs_compared"] = len(pairs)
+    ctx.extra["deps_domain_pairs"] = len(m_dom)
+    ctx.extra["deps_perturbed_nets"] = int(sum(tried.values()))
+    ctx.extra["deps_columns_in_test_net"] = int(sum(len(net[e].columns) for e in dd.ELEMS))
+
+
 def run(ctx):
     rng = ctx.rng
     import random, os, glob, json
+    deps_check(ctx)
     dom = py_domain(base_net(random.Random(1)))
     cases = []
     for f in sorted(glob.glob(os.path.join(cq.VERIF, "corpus", "C12", "*.json"))):
